@@ -201,6 +201,12 @@ def contracts():
     return cs
 
 
+
+def bounded(tier, seed):
+    return [{"name": "C14.bounded", "script": "native/bounded_C14.py", "timeout": 3000,
+             "scope": "all 256 qualifier subsets x sequences of 3 values of y from {absent, 1, 2, 3} (+ true/false without increase/decrease) x {rest matches, does not}: "
+                      "quick a seeded 1-in-12 slice of the sequences per subset (4362 runs), thorough all 52224, each a real csvpath over a 3-line file"}]
+
 LEVEL = "proof"
 EXPLANATION = ("The documented assignment table is stated as postconditions D1-D7 on the real Equality._do_assignment_new_impl and "
                "Equality._do_assignment (all 256 qualifier subsets, all values y/cur, symbolically), proved modularly from exact "
